@@ -118,6 +118,9 @@ func mcWorlds(family string) []Scenario {
 		add(c0("auth", "remember", "totp", "sms", "recovery", "logout"), seed2)
 		ws[len(ws)-1].Steps = []sut.Event{{Act: "LoginPost", B: "b1", Pid: "u1", Pw: 1, Rm: true}, {Act: "TotpSetup", B: "b1"},
 			{Act: "TotpConfirm", B: "b1", Tok: 1, Code: 1}, {Act: "DropSession", B: "b1"}}
+		// ... the same with an application that calls remember.Authenticate from its own middleware
+		ws = append(ws, ws[len(ws)-1])
+		ws[len(ws)-1].Cfg.SelfAuth = true
 		// a plain account, logged in
 		for _, ea := range []bool{false, true} {
 			c := c0("auth", "totp", "sms", "recovery", "logout")
